@@ -26,12 +26,13 @@ func init() {
 		Rule: "E-simkq ledger: PRNG sequential histories over 1-2 watched directories (+1 unwatched) holding files, sub-directories, FIFOs, symlinks (live, dangling, to watched targets), added under several spellings and through symlinks, with entries created/written/chmod'ed/removed/renamed (also onto existing entries, across directories), " +
 			"user watches removed and re-added, watched directories removed with their contents; after EVERY step, at simulator quiescence: every open vnode descriptor is referenced by a table entry and vice versa, no descriptor points at a deleted file, WatchList == cleaned user paths; " +
 			"after removing every user watch: no vnode descriptor and all five tables empty; after Close and reader exit: the descriptor ledger is empty (kqueue, pipe ends, vnode descriptors). Half of the histories Close with watches still present. " +
+			"Directed family 'user watches inside a watched directory': the directory and 1-3 of its entries (files, a sub-directory) added by their own paths in either order, Remove of the directory (the user's entry watches stay listed, keep their descriptor and keep reporting; everything internal goes), then the rest (nothing left, including keys of the per-directory index). " +
 			"Concurrent variant (also under the race detector): 3 API goroutines + a mutator + Close at a PRNG instant; the ledger must drain. Symlink-free histories are a separate stratum (no recorded finding can apply there). " +
 			"distinct_nontrivial = distinct histories (case seed) with >=2 op kinds and >=1 event",
 		Assumptions: []string{kqNote},
 		Batches:     func(t string) int { return map[string]int{"quick": 12, "thorough": 48}[t] },
 		RaceBatches: func(t string) int { return map[string]int{"quick": 2, "thorough": 12}[t] },
-		MustObserve: []string{"simulator_validation_scripts_reproduced", "histories", "events_compared", "close_checks", "concurrent_histories"},
+		MustObserve: []string{"simulator_validation_scripts_reproduced", "histories", "events_compared", "close_checks", "concurrent_histories", "user_inside_histories"},
 		Run:         func(c *core.Ctx) { runKq(c, "C17") },
 	})
 	core.Register(&core.Check{
@@ -40,6 +41,7 @@ func init() {
 		Level:  "exploration",
 		Rule: "E-simkq + reference model: the same sequential histories with simulator quiescence after every step; a model predicts the events: no Create for entries present at Add (or at re-Add), exactly one Create per new entry (files, directories, FIFOs, symlinks, move-ins), " +
 			"then Write/Chmod/Remove/Rename named Clean(arg)/entry (the link spelling for a symlinked watch path); overwrite-by-rename => Remove then Create; removing a watched directory => Remove for each entry and for it. Multisets compared per step. " +
+			"The directed user-watches-inside-a-directory family of C17 contributes its event expectations (one event per change whoever asked for the watch; silence from what was removed). " +
 			"Burst variant (k=2..8 steps between quiescence points): only the timing-independent part: never a Create for a pre-existing entry, at most one per incarnation, one for every entry created while watched that still exists. " +
 			"distinct_nontrivial = distinct histories with >=2 op kinds and >=1 event",
 		Assumptions: []string{kqNote, "moves of populated directories are not generated (per-entry watches follow the vnode; not modelled)"},
